@@ -23,7 +23,7 @@ ASSUMPTIONS = [
 
 def plan(tier, seed):
     n = 170 if tier == 'quick' else 3000
-    specs = [{'world': 'open', 'version': v, 'n': 12 if tier == 'quick' else 150} for v in tables.versions()]
+    specs = [{'world': 'open', 'version': v, 'n': 42 if tier == 'quick' else 420} for v in tables.versions()]
     for v in tables.versions():
         for kind in ('segment', 'field', 'message', 'component'):
             specs.append({'world': kind, 'version': v, 'n': n})
@@ -150,9 +150,13 @@ def run_open(spec, rec):
         for i in range(spec['n']):
             level = 1 + i % 2
             s = core.Segment(seg, version=v, validation_level=level)
-            setattr(s, '%s_%d' % (seg.lower(), base + 1), 'a')
-            setattr(s, '%s_%d' % (seg.lower(), base + 2), 'b')
-            if level == 2 and i % 3 == 0:
+            empty = seg.startswith('Z') and i % 3 == 2      # a local segment that holds nothing yet
+            if not empty:
+                setattr(s, '%s_%d' % (seg.lower(), base + 1), 'a')
+                setattr(s, '%s_%d' % (seg.lower(), base + 2), 'b')
+            else:
+                rec.count('open_segments_still_empty')
+            if level == 2 and i % 3 == 0 and not empty:
                 u = core.Field(version=v, validation_level=level)
                 u.value = 'u'
                 s.add(u)
@@ -163,7 +167,7 @@ def run_open(spec, rec):
             ver = hist._other_version(v) if mism == 'version' else v
             before = treeinv.snapshot(s)
             case = {'world': {'kind': 'open', 'version': v, 'level': level, 'segment': seg}, 'how': how, 'mismatch': mism,
-                    'name': name}
+                    'name': name, 'empty': empty}
             rec.evaluation(('open', v, seg, level, how, mism, name))
             try:
                 if how == 'ctor':
@@ -177,7 +181,9 @@ def run_open(spec, rec):
                     s.children = list(s.children.list) + [first, core.Field('MSH_3' if seg != 'MSH' else 'PID_3', version=v,
                                                                             validation_level=level)]
                 elif how == 'proxy-value':
-                    getattr(s, name.lower()).value = 'x' * 70000 if level == 1 else 'fine'
+                    # (STRICT: longer than an ST may be; TOLERANT: no text at all)
+                    getattr(s, name.lower()).value = 'x' * (70000 if i % 4 else 300) if level == 1 else \
+                        (3.5 if i % 4 else ['a'])
                 elif how == 'segment-value':
                     # the whole segment text re-assigned with a value that STRICT refuses (over-long) / a wrong segment name
                     bad = (seg + '|x|' + 'y' * 70000) if level == 1 else ('QQQ|1|2' if seg != 'QQQ' else 'PID|1')
